@@ -157,7 +157,7 @@ def run_check(pid, tier, repo, seed, opts):
             if src.count(old) != 1:
                 canary_res.append({'canary': note, 'result': 'not-applicable (anchor text not found once)'})
                 continue
-            _, cres = check.run_property(pid, 'quick', repo, seed, overrides={rel: src.replace(old, new)}, unit_filter=ufilter)
+            _, cres = check.run_property(pid, 'quick', repo, seed, overrides={rel: src.replace(old, new)}, unit_filter=ufilter, own_only=True)
             bad = [o for r in cres for o in r['obligations'] if o['status'] != 'unsat']
             und = [u for r in cres for u in r['undecided']] + [r['error'] for r in cres if r['error']]
             killed = bool(bad)
